@@ -46,6 +46,12 @@ type c07Case struct {
 	// (587 with fallback 25 and the like) is in force; the judged plain-text server listens on port 25,
 	// nobody listens on 587/465.
 	DefaultPorts bool `json:"default_ports,omitempty"`
+	// SetupAfterPrior: the setter sequence is applied AFTER the first connection (Prior), i.e. the
+	// policy changes between two dials of one Client.
+	SetupAfterPrior bool `json:"setup_after_prior,omitempty"`
+	// SharedTLSConfigWith: the *tls.Config given to this Client (RootCAs only, no ServerName) was given
+	// to another Client, created for that other host, before.
+	SharedTLSConfigWith string `json:"shared_tls_config_with,omitempty"`
 }
 
 func c07Policy(p string) mail.TLSPolicy {
@@ -192,26 +198,43 @@ func c07Run(c c07Case) []*core.Violation {
 	if c.Auth == "CUSTOM" {
 		opts = append(opts, mail.WithSMTPAuthCustom(smtp.PlainAuth("", c.User, c.Pass, c.Host, false)))
 	}
+	if c.SharedTLSConfigWith != "" {
+		ca, _ := pki()
+		shared := &tls.Config{RootCAs: ca.Pool(), MinVersion: tls.VersionTLS12}
+		if _, oerr := mail.NewClient(c.SharedTLSConfigWith, mail.WithTLSConfig(shared)); oerr != nil {
+			ln.Close()
+			return []*core.Violation{core.V("HARNESS-newclient", "first client of the shared config: %v", oerr)}
+		}
+		opts = append(opts, mail.WithTLSConfig(shared))
+	}
 	cl, err := mail.NewClient(c.Host, opts...)
 	if err != nil {
 		ln.Close()
 		return []*core.Violation{core.V("HARNESS-newclient", "%v", err)}
 	}
-	for _, st := range c.Setup {
-		k, v, _ := strings.Cut(st, ":")
-		switch k {
-		case "policy":
-			cl.SetTLSPolicy(c07Policy(v))
-		case "portpolicy":
-			cl.SetTLSPortPolicy(c07Policy(v))
-		case "ssl":
-			cl.SetSSL(v == "true")
-		case "sslport":
-			cl.SetSSLPort(v == "true", false)
-		default:
-			ln.Close()
-			return []*core.Violation{core.V("HARNESS-setup", "unknown setup step %q", st)}
+	applySetup := func() *core.Violation {
+		for _, st := range c.Setup {
+			k, v, _ := strings.Cut(st, ":")
+			switch k {
+			case "policy":
+				cl.SetTLSPolicy(c07Policy(v))
+			case "portpolicy":
+				cl.SetTLSPortPolicy(c07Policy(v))
+			case "ssl":
+				cl.SetSSL(v == "true")
+			case "sslport":
+				cl.SetSSLPort(v == "true", false)
+			default:
+				return core.V("HARNESS-setup", "unknown setup step %q", st)
+			}
 		}
+		return nil
+	}
+	if c.SetupAfterPrior {
+		// nothing yet: the setters run between the two connections
+	} else if hv := applySetup(); hv != nil {
+		ln.Close()
+		return []*core.Violation{hv}
 	}
 	firstJudged := 0
 	if c.Prior {
@@ -239,6 +262,12 @@ func c07Run(c c07Case) []*core.Violation {
 		prior.Release()
 		firstJudged = len(ln.SessionsSnapshot())
 		ln.SetServer(srv)
+		if c.SetupAfterPrior {
+			if hv := applySetup(); hv != nil {
+				ln.Close()
+				return []*core.Violation{hv}
+			}
+		}
 		rec.AddExtra("second_connection_of_one_client_cases", 1)
 	}
 	m := simpleMsg(1, 1, "quoted-printable")
@@ -359,7 +388,7 @@ func c07Run(c c07Case) []*core.Violation {
 	// evidence
 	deviates := !c.StartTLS || c.TLSReply != "ok" || c.Handshake != "ok"
 	if deviates || c.Policy != "none" {
-		rec.NonTrivial(core.Join(c.Policy, c.Auth, c.Host, c.StartTLS, c.TLSReply, c.Handshake, c.AuthList, c.Opt, strings.Join(c.Setup, ">"), c.Prior, c.DefaultPorts))
+		rec.NonTrivial(core.Join(c.Policy, c.Auth, c.Host, c.StartTLS, c.TLSReply, c.Handshake, c.AuthList, c.Opt, strings.Join(c.Setup, ">"), c.Prior, c.DefaultPorts, c.SetupAfterPrior, c.SharedTLSConfigWith))
 		rec.Sample(c.Policy+"/"+c.Handshake+"/"+c.TLSReply, map[string]interface{}{"case": c, "error": fmt.Sprint(callErr), "sessions": len(sessions)})
 	}
 	rec.Class("policy:" + c.Policy)
@@ -439,6 +468,25 @@ func c07LifecycleCases() []c07Case {
 			}
 		}
 	}
+	// the policy changes BETWEEN two connections of one Client: implicit TLS switched on after a first,
+	// plain connection (the judged server is a plain-text speaker: the client must open with a TLS record)
+	for _, host := range []string{"127.0.0.1", "127.0.0.2"} {
+		for _, setup := range [][]string{{"ssl:true"}, {"sslport:true"}} {
+			for _, opt := range []string{"none", "opportunistic"} {
+				out = append(out, c07Case{Policy: "implicit", Opt: opt, Setup: setup, Prior: true, SetupAfterPrior: true, Auth: "PLAIN", Host: host, StartTLS: false, TLSReply: "ok", Handshake: "garbage", AuthList: "PLAIN LOGIN"})
+			}
+		}
+		// ... and a weaker policy made mandatory after a first connection
+		for _, setup := range [][]string{{"policy:mandatory"}, {"portpolicy:mandatory"}} {
+			out = append(out, c07Case{Policy: "mandatory", Opt: "none", Setup: setup, Prior: true, SetupAfterPrior: true, Auth: "PLAIN", Host: host, StartTLS: false, TLSReply: "ok", Handshake: "ok", AuthList: "PLAIN LOGIN"})
+		}
+		// a *tls.Config without ServerName shared with a Client for another host: the certificate is
+		// still verified against THIS client's host
+		for _, pol := range []string{"mandatory", "opportunistic"} {
+			out = append(out, c07Case{Policy: pol, SharedTLSConfigWith: "some.other.host.example", Auth: "PLAIN", Host: host, StartTLS: true, TLSReply: "ok", Handshake: "wrongname", AuthList: "PLAIN LOGIN"})
+			out = append(out, c07Case{Policy: pol, SharedTLSConfigWith: "some.other.host.example", Auth: "PLAIN", Host: host, StartTLS: true, TLSReply: "ok", Handshake: "ok", AuthList: "PLAIN LOGIN"})
+		}
+	}
 	for _, pol := range []string{"mandatory", "opportunistic", "none"} {
 		for _, host := range []string{"127.0.0.1", "127.0.0.2"} {
 			for _, auth := range []string{"", "AUTODISCOVER", "PLAIN", "LOGIN", "CRAM-MD5"} {
@@ -455,7 +503,7 @@ func c07LifecycleCases() []c07Case {
 
 func c07Describe() {
 	rec := core.Rec("C07")
-	rec.Rule = "real TCP sessions (default dialers, the client's DEFAULT tls.Config with the harness CA installed as the only system root through SSL_CERT_FILE) of DialAndSend against the reference server on 127.0.0.1 (a localhost name by go-mail's rule) and 127.0.0.2 (not): product of TLS policy {mandatory, default (no option), opportunistic, none, implicit} x 13 auth types x host x server behaviour {STARTTLS advertised or not; STARTTLS answered 220 / 454 / 502 / garbage; handshake ok / certificate for another name / certificate of an untrusted CA / garbage bytes; plain-text speaker on the implicit-TLS port; implicit TLS configured with a fallback port (WithSSLPort) where the primary port refuses and a plain-text server listens on the fallback port 25} x advertised AUTH lists (2 in quick, 7 in thorough, incl. only-cleartext mechanisms, empty, absent). Default-port cases (no port option: a port policy leaves a fallback port 25 behind, a later policy setter makes TLS mandatory, the primary port 587 is closed and a plain-text server answers on 25). Lifecycle cases: the policy established by a sequence of setter calls (SetTLSPolicy, SetTLSPortPolicy, SetSSL, SetSSLPort after other policies were set first, with or without a weaker policy option) instead of an option, and the judged DialAndSend being the SECOND connection of one Client whose first connection (DialWithContext + Close) met a well-behaved server at the same address offering STARTTLS with a valid certificate and AUTH PLAIN LOGIN. Fresh random 16-character credentials per case. Both tiers enumerate their product completely (quick with 2 AUTH lists, thorough with 7). TestC07Names adds, over in-memory connections, 18 host names around go-mail's localhost rule (exact names, names that merely start/end with or contain 'localhost', 127.x look-alikes) x {none, opportunistic without STARTTLS} x {PLAIN, LOGIN, AUTODISCOVER} x 3 AUTH lists. " +
+	rec.Rule = "real TCP sessions (default dialers, the client's DEFAULT tls.Config with the harness CA installed as the only system root through SSL_CERT_FILE) of DialAndSend against the reference server on 127.0.0.1 (a localhost name by go-mail's rule) and 127.0.0.2 (not): product of TLS policy {mandatory, default (no option), opportunistic, none, implicit} x 13 auth types x host x server behaviour {STARTTLS advertised or not; STARTTLS answered 220 / 454 / 502 / garbage; handshake ok / certificate for another name / certificate of an untrusted CA / garbage bytes; plain-text speaker on the implicit-TLS port; implicit TLS configured with a fallback port (WithSSLPort) where the primary port refuses and a plain-text server listens on the fallback port 25} x advertised AUTH lists (2 in quick, 7 in thorough, incl. only-cleartext mechanisms, empty, absent). Default-port cases (no port option: a port policy leaves a fallback port 25 behind, a later policy setter makes TLS mandatory, the primary port 587 is closed and a plain-text server answers on 25). Policy changes between two connections of one Client (implicit TLS switched on, a weak policy made mandatory), and a *tls.Config without ServerName that was first given to a Client for another host. Lifecycle cases: the policy established by a sequence of setter calls (SetTLSPolicy, SetTLSPortPolicy, SetSSL, SetSSLPort after other policies were set first, with or without a weaker policy option) instead of an option, and the judged DialAndSend being the SECOND connection of one Client whose first connection (DialWithContext + Close) met a well-behaved server at the same address offering STARTTLS with a valid certificate and AUTH PLAIN LOGIN. Fresh random 16-character credentials per case. Both tiers enumerate their product completely (quick with 2 AUTH lists, thorough with 7). TestC07Names adds, over in-memory connections, 18 host names around go-mail's localhost rule (exact names, names that merely start/end with or contain 'localhost', 127.x look-alikes) x {none, opportunistic without STARTTLS} x {PLAIN, LOGIN, AUTODISCOVER} x 3 AUTH lists. " +
 		"Oracle on the byte tap: under mandatory policy the cleartext consists of EHLO/HELO, STARTTLS and QUIT lines only, no session continues after a handshake with an invalid certificate, nothing but QUIT (or TLS records) follows a failed handshake; implicit TLS: first byte is a TLS record and no SMTP verb in clear; under every policy the PLAIN/LOGIN password never appears in the cleartext raw, hex or base64 (3 alignments) unless the type is *-NOENC or the host is localhost; AUTODISCOVER never issues AUTH PLAIN/LOGIN/XOAUTH2 on an unencrypted connection. " +
 		"Non-trivial: the server deviates from the happy path or the policy is not 'none'. Distinct by the case tuple."
 	rec.Assumptions = []string{"Go's root loader honours SSL_CERT_FILE/SSL_CERT_DIR (Linux)", "127.0.0.2 is bindable on the loopback interface"}
